@@ -10,7 +10,10 @@ MANIFEST = {
             "parenthesised (C03_emitted_respects_precedence, from the level tables C03_tables_ok); for every expression of the fragment "
             "(fields, scope variables, member / index access, literals, unary / binary operators incl. && || ??, conditionals, string "
             "conversion) running the hoisted statements in order from any initial state and evaluating the tree gives the value of the "
-            "source expression (C03_compile_correct). Tie: exact text equality model vs implementation on all operator x position x "
+            "source expression (C03_compile_correct). Source side: the character-level parser model reads the minimal-parentheses "
+            "spelling and every spelling with additional parentheses around any operands (up to the fully parenthesised one, whose "
+            "grouping no precedence table can change) as the same tree (C03_source_parentheses_honoured: source parentheses are "
+            "honoured exactly; the parser implements exactly the printer's level tables). Tie: exact text equality model vs implementation on all operator x position x "
             "child-shape combinations (depth 2, exhaustive) and random deep expressions in four binding contexts; the model's source "
             "semantics (Val.eval) vs node evaluating the emitted text; value differential in node (generated code through the real "
             "pipeline vs fully parenthesised reference JS) over an edge-value data pool for ALL expression forms.",
@@ -24,7 +27,8 @@ MANIFEST = {
 }
 
 THEOREMS = ["C03_tables_ok", "C03_legacy_xor_table_refuted", "C03_gen_paren_decision",
-            "C03_emitted_text_is_tree", "C03_emitted_respects_precedence", "C03_compile_correct"]
+            "C03_emitted_text_is_tree", "C03_emitted_respects_precedence", "C03_compile_correct",
+            "C03_source_parentheses_honoured", "C03_minimal_spelling_is_the_printers"]
 
 
 def value_diff(res, tier, seed):
@@ -157,6 +161,14 @@ def run(res):
         res.violation("C03 value differential: {{ %s }} with data %s: %s (generated=%s reference=%s)" % (
             e["wxml"], json.dumps(d)[:300], msg, json.dumps(gv)[:200], json.dumps(rv)[:200]),
             {"wxml": e["wxml"], "src": e["src"], "reference_js": e["ref"], "data": d, "generated": gv, "reference": rv})
+    # the parser model behind C03_source_parentheses_honoured: implementation = model on generated / mutated values
+    import valparse
+    rv = valparse.run(res.tier, res.seed, "C03")
+    res.notes["value_parser_cases"] = rv["n"]
+    for (c, i, m) in rv["mismatches"][:3]:
+        d = valparse.describe(c)
+        res.violation("the parser reads the %s value %r as %s, the Coq model of the expression / value parser says %s" % (
+            d["context"], d["source"][:200], i[:300], m[:300]), dict(d, impl=i, model=m))
     # string escapes: the value the parser assigns to a literal = the value JavaScript (strict mode) assigns to the same
     # literal text, whenever JavaScript accepts it and the parser raises nothing at Error level
     pj = harness_run(["wxscan_js", res.tier, res.seed])
@@ -180,7 +192,7 @@ def run(res):
     f_sc, n_sc, _, _, _ = scopeval.check(res)
     res.notes["scope_resolution_evaluations"] = n_sc
     if not ok:
-        res.violation(what, {"obligation": "Properties/C03.v"}, no_input=not (bad or f_sc or f_js))
+        res.violation(what, {"obligation": "Properties/C03.v"}, no_input=not (bad or f_sc or f_js or rv["mismatches"]))
     res.cov["evaluations"] = r["n"] + n_eval + n_sem + n_sc + n_js
     res.cov["distinct_nontrivial"] = len(set(e["wxml"] for e in exprs if e["size"] >= 3))
     res.cov["rule"] = ("text correspondence: every (operator, operand position, child shape) combination to depth 2 plus random "
